@@ -369,14 +369,33 @@ def unordered(j):
     return go(j)
 
 
+class _Timeout(Exception):
+    pass
+
+
+def _alarm(signum, frame):
+    raise _Timeout()
+
+
 def impl_resolve(w, rs, data):
+    """one call of the implementation, with a time limit: a decoder that loses alignment can loop over a huge count"""
+    import signal
     fo = io.BytesIO(data)
+    old = signal.signal(signal.SIGALRM, _alarm)
+    signal.setitimer(signal.ITIMER_REAL, 5)
     try:
         v = schemaless_reader(fo, copy.deepcopy(w), copy.deepcopy(rs) if rs is not None else None)
+    except _Timeout:
+        return {"err": "timeout"}
+    except MemoryError:
+        return {"err": "memory"}
     except RecursionError:
         return {"err": "fuel"}
     except Exception as e:  # noqa
         return {"err": exc_class(e)}
+    finally:
+        signal.setitimer(signal.ITIMER_REAL, 0)
+        signal.signal(signal.SIGALRM, old)
     return {"ok": to_wire(v), "rest": len(data) - fo.tell()}
 
 
